@@ -11,7 +11,8 @@ import time
 
 import world
 
-SCRATCH = '/var/tmp/ucg-verif-native'
+import hashlib as _h
+SCRATCH = '/var/tmp/ucg-verif-native-' + _h.sha256(world.CACHE.encode()).hexdigest()[:8]
 
 
 class Native:
